@@ -545,12 +545,14 @@ def expand_place(body, pl, depth=8):
             proj = list(inner['p']) + proj[1:]
             l = inner['l']
             continue
-        if rv['k'] == 'use' and is_place(rv['op']):
+        if rv['k'] == 'use' and is_place(rv['op']) and proj and proj[0][0] == 'deref':
+            # the local holds a copied reference / pointer: (*_5) with _5 = copy _3  ->  (*_3)
             inner = rv['op']['pl']
             proj = list(inner['p']) + proj
             l = inner['l']
             continue
-        if rv['k'] == 'cast' and is_place(rv['op']) and 'Unsize' not in rv.get('ck', '') and 'Transmute' not in rv.get('ck', ''):
+        if rv['k'] == 'cast' and is_place(rv['op']) and proj and proj[0][0] == 'deref' \
+                and 'Unsize' not in rv.get('ck', '') and 'Transmute' not in rv.get('ck', ''):
             inner = rv['op']['pl']
             proj = list(inner['p']) + proj
             l = inner['l']
